@@ -188,7 +188,7 @@ func (lr *lifeRun) exec(a *LifeAct) (string, string) {
 			if err != nil {
 				return classify(err), err
 			}
-			err = ds.Set(fmt.Sprintf("w%d", a.ID), 0, nil, []byte(`{"w":1}`))
+			err = ds.Set(fmt.Sprintf("w%d", a.ID), 0, nil, []byte(`{"w":12}`))
 			return classify(err), err
 		case "Drop":
 			err := lr.hs[a.H].DropDataStore(lifeColl("c1"))
@@ -347,9 +347,10 @@ func (lr *lifeRun) probe(b *rosmar.Bucket) HandleObs {
 			}
 			sort.Strings(kv)
 			if o.Q == "ok" {
-				// the same statement text every time, prepared (adhoc=false)
+				// the same statement text every time, prepared (adhoc=false); it filters on a property every document written by
+				// the driver has (their bodies are 8 bytes long, which a binary-JSON guess by SQLite would misread)
 				it, err := ds.(*rosmar.Collection).Query(sgbucket.SQLiteLanguage,
-					`SELECT json_quote(id) AS id FROM $_keyspace WHERE id LIKE 'w%' ORDER BY id`, nil, sgbucket.RequestPlus, false)
+					`SELECT json_quote(id) AS id FROM $_keyspace WHERE id LIKE 'w%' AND body->>'w' = 12 ORDER BY id`, nil, sgbucket.RequestPlus, false)
 				if err != nil {
 					o.Q = "err:" + classify(err)
 				} else {
